@@ -109,6 +109,15 @@ class Conds(dict):
         return dict.pop(self, norm_text(text)[0], *default)
 
 
+def assert_text(test):
+    """Canonical spelling of an asserted test (equivalent spellings give one text)."""
+    if isinstance(test, ast.AST):
+        t, flip = norm_test(test)
+    else:
+        t, flip = norm_text(test)
+    return ('not ' if flip else '') + t
+
+
 def cond_is(e, text):
     """For a cond event: the truth it assigns to the test spelled `text` (None if it is about another test)."""
     if e.kind != 'cond':
@@ -332,11 +341,20 @@ class PathEnumerator:
         self.ex = Extractor()
         self.name = name or fn.name
         self.count = 0
+        # subjects an `if isinstance(S, C)` chain may dispatch on like a match statement does: plain names that are
+        # parameters or loop / match-bound variables of fn and that no match statement of fn already dispatches on
+        params = {a.arg for a in fn.args.args + fn.args.kwonlyargs} - {'self'}
+        loopvars = {n.id for st in ast.walk(fn) if isinstance(st, ast.For) for n in ast.walk(st.target) if isinstance(n, ast.Name)}
+        matched = {src(st.subject) for st in ast.walk(fn) if isinstance(st, ast.Match)}
+        self.dispatch_subjects = (params | loopvars) - matched
 
     # assumptions: dict text -> bool ; invalidated by assignment to a name occurring in text
     def paths(self):
         out = []
         for events, assumptions, outcome in self._block(self.fn.body, [], {}):
+            events = self._alias_conds(events)
+            if events is None:
+                continue
             out.append(Path(events, 'fall' if outcome == 'fall' else outcome, self.name))
             if len(out) > self.max_paths:
                 raise AnalysisError(f'path explosion in {self.name} (> {self.max_paths})')
@@ -415,7 +433,12 @@ class PathEnumerator:
         for truth in (True, False):
             a = dict(assumptions)
             a[text] = (truth != flip, names)
-            yield events + [Ev('cond', test.lineno, test_node, text=text, truth=truth != flip)], a, truth
+            extra = []
+            if (truth != flip) and self._is_dispatch(test_node):
+                cl = _class_tuple(test_node.args[1])
+                extra = [Ev('case', test.lineno, test_node, text=f'{src(test_node.args[0])}: ' + ' | '.join(c + '()' for c in cl),
+                            ctor='isinstance')]
+            yield events + [Ev('cond', test.lineno, test_node, text=text, truth=truth != flip)] + extra, a, truth
 
     def _block(self, stmts, prefix, assumptions):
         """Yield (events, assumptions, outcome) for every path through stmts."""
@@ -428,6 +451,90 @@ class PathEnumerator:
                 yield from self._block(rest, prefix + events, asm_)
             else:
                 yield prefix + events, asm_, outcome
+
+    @staticmethod
+    def _alias_conds(events):
+        """A decision on a bare name that was bound, earlier on the path, to a side-effect-free test also decides that
+        test: `negated = type(expr) is ast.Not ... if negated:` says what `if type(expr) is ast.Not:` says.  The implied
+        cond events are added right after the decision (marked ctor='alias').  A path on which the same test is decided
+        both ways is contradictory and dropped (returns None)."""
+        if not any(e.kind == 'cond' and e.text.isidentifier() for e in events):
+            return events
+        out = []
+        facts = {}
+        for i, e in enumerate(events):
+            out.append(e)
+            if e.kind == 'assign':
+                for k in [k for k, (names, _) in facts.items() if e.target in names]:
+                    facts.pop(k, None)
+            if e.kind != 'cond':
+                continue
+            if e.text.isidentifier():
+                v = reaching_value(events, i, e.text)
+                implied = []
+                if isinstance(v, ast.expr):
+                    def walk(node, truth):
+                        if isinstance(node, ast.UnaryOp) and isinstance(node.op, ast.Not):
+                            walk(node.operand, not truth)
+                        elif isinstance(node, ast.BoolOp):
+                            if isinstance(node.op, ast.And) and truth or isinstance(node.op, ast.Or) and not truth:
+                                for x in node.values:
+                                    walk(x, truth)
+                        elif isinstance(node, (ast.Compare, ast.Call, ast.Attribute)) and not any(
+                                isinstance(x, (ast.Yield, ast.YieldFrom, ast.Await, ast.NamedExpr)) for x in ast.walk(node)):
+                            t, flip = norm_test(node)
+                            implied.append((t, truth != flip, node))
+                    walk(v, e.truth)
+                for t, truth, node in implied:
+                    try:
+                        cnode = ast.parse(t, mode='eval').body
+                    except SyntaxError:
+                        cnode = node
+                    out.append(Ev('cond', e.line, cnode, text=t, truth=truth, ctor='alias'))
+        # contradiction check between decisions on the same test with no intervening rebinding of its names
+        seen = {}
+        for e in out:
+            if e.kind == 'assign':
+                for k in [k for k in seen if e.target in seen[k][1]]:
+                    seen.pop(k, None)
+            elif e.kind == 'cond':
+                names = {n.id for n in ast.walk(e.node) if isinstance(n, ast.Name)} if isinstance(e.node, ast.AST) else set()
+                if e.text in seen and seen[e.text][0] != e.truth:
+                    return None
+                seen[e.text] = (e.truth, names)
+        return out
+
+    def _is_dispatch(self, test):
+        return isinstance(test, ast.Call) and src(test.func) == 'isinstance' and len(test.args) == 2 \
+            and isinstance(test.args[0], ast.Name) and test.args[0].id in self.dispatch_subjects \
+            and all(c.startswith('ast.') for c in _class_tuple(test.args[1]))
+
+    @staticmethod
+    def _pattern_test(subject, pattern):
+        """Canonical text of the test a simple match pattern performs on the subject (None for anything richer)."""
+        if isinstance(pattern, ast.MatchAs) and pattern.pattern is not None:
+            pattern = pattern.pattern
+        subj = src(subject)
+
+        def classes(p):
+            if isinstance(p, ast.MatchClass) and not p.patterns and not p.kwd_patterns:
+                return [src(p.cls)]
+            if isinstance(p, ast.MatchOr):
+                out = []
+                for q in p.patterns:
+                    c = classes(q)
+                    if c is None:
+                        return None
+                    out += c
+                return out
+            return None
+        cl = classes(pattern)
+        if cl:
+            cl = sorted(set(cl))
+            return f'isinstance({subj}, {cl[0]})' if len(cl) == 1 else f'isinstance({subj}, (' + ', '.join(cl) + '))'
+        if isinstance(pattern, ast.MatchValue) and isinstance(pattern.value, (ast.Attribute, ast.Constant)):
+            return norm_text(f'{subj} == {src(pattern.value)}')[0]
+        return None
 
     def _simple(self, events, assumptions):
         return events, self._invalidate(assumptions, events), 'fall'
@@ -487,7 +594,7 @@ class PathEnumerator:
                 yield [Ev('raise', st.lineno, st, text='assert False')], assumptions, 'raise'
                 return
             evs = ex.expr_events(st.test)
-            evs.append(Ev('assert', st.lineno, st, text=src(st.test)))
+            evs.append(Ev('assert', st.lineno, st, text=assert_text(st.test)))
             yield self._simple(evs, assumptions)
             return
         if isinstance(st, ast.Pass):
@@ -509,9 +616,20 @@ class PathEnumerator:
             subj_events = ex.expr_events(st.subject)
             subj = src(st.subject)
             has_wild = False
+            earlier = []        # tests implied false by the arms that did not match
             for case in st.cases:
                 pat = src(case.pattern)
                 evs = list(subj_events) + [Ev('case', case.pattern.lineno, case, text=f'{subj}: {pat}')]
+                # a class pattern without sub-patterns is `isinstance(subject, C)`, a dotted-name pattern is `subject == V`:
+                # recorded as cond events too, so that a rule sees the same facts whether the dispatch is written as
+                # match/case or as an if/elif chain
+                implied = self._pattern_test(st.subject, case.pattern)
+                for t_text in earlier:
+                    evs.append(Ev('cond', case.pattern.lineno, None, text=t_text, truth=False, ctor='match'))
+                if implied and case.guard is None:
+                    evs.append(Ev('cond', case.pattern.lineno, None, text=implied, truth=True, ctor='match'))
+                if implied and case.guard is None:
+                    earlier.append(implied)
                 binds = [n.name for n in ast.walk(case.pattern)
                          if isinstance(n, (ast.MatchAs, ast.MatchStar)) and n.name]
                 for b in binds:
@@ -640,25 +758,68 @@ def substitute(node, mapping):
     return _clone(node, mapping)
 
 
+def _subst_text(text, mapping, as_test=False):
+    """Substitute parameter names in a piece of source text (cond / ctor / splice text)."""
+    if not mapping:
+        return text, False
+    try:
+        node = ast.parse(text, mode='eval').body
+    except SyntaxError:
+        return text, False
+    if not any(isinstance(n, ast.Name) and n.id in mapping for n in ast.walk(node)):
+        return text, False
+    new = substitute(node, mapping)
+    if as_test:
+        return norm_test(new)
+    return src(new), False
+
+
 def inline(path_events, helpers, depth=3):
     """Replace ``sub`` events calling one of ``helpers`` (name -> list[Path]) by the helper's
-    own events, with parameters substituted by the argument expressions.  Returns a list of
-    event lists (one per combination of helper paths)."""
+    own events, with parameters substituted by the argument expressions (in operands, receivers, values,
+    condition texts, constructor names and spliced parameters).  A helper path that returns a constant is only
+    combined with caller paths whose decision on that result agrees.  Returns a list of event lists (one per
+    combination of helper paths)."""
     results = [[]]
-    for e in path_events:
+    for pos, e in enumerate(path_events):
         key = e.func if e.kind in ('sub', 'silent') else None
         if key in helpers and depth > 0 and e.kind == 'sub':
             fn, hpaths = helpers[key]
-            params = [a.arg for a in fn.args.args if a.arg != 'self']
+            params = [a.arg for a in fn.args.args + fn.args.kwonlyargs if a.arg != 'self']
             mapping = {}
             for p, a in zip(params, e.args):
                 mapping[p] = a
             for k, v in e.kwargs.items():
                 mapping[k] = v
+            # defaults of parameters not passed
+            pos_params = [a.arg for a in fn.args.args if a.arg != 'self']
+            for pname, d in zip(pos_params[len(pos_params) - len(fn.args.defaults):], fn.args.defaults):
+                mapping.setdefault(pname, d)
+            for a, d in zip(fn.args.kwonlyargs, fn.args.kw_defaults):
+                if d is not None:
+                    mapping.setdefault(a.arg, d)
+            # locals of the helper shadow nothing of the caller: only parameters are substituted
+            # the caller's decision on the helper's result (if it branches on it)
+            decision = None
+            call_text = src(e.node) if e.node is not None else None
+            for later in path_events[pos + 1:]:
+                if later.kind == 'cond' and ((isinstance(e.bound, str) and later.text == e.bound)
+                                             or (call_text and call_text in later.text and 'yield from' in later.text)):
+                    decision = later.truth
+                    break
+                if later.kind in ('sub', 'emit', 'splice'):
+                    if not (isinstance(e.bound, str)):
+                        break
             new_results = []
             for hp in hpaths:
                 if hp.outcome == 'raise':
                     continue
+                rets = [he for he in hp.events if he.kind == 'return']
+                if decision is not None and rets and isinstance(rets[-1].value, ast.Constant):
+                    if bool(rets[-1].value.value) != decision:
+                        continue
+                if decision is not None and not rets and decision:
+                    continue            # falls off the end: returns None
                 inl = []
                 for he in hp.events:
                     ne = copy.copy(he)
@@ -669,7 +830,29 @@ def inline(path_events, helpers, depth=3):
                     if he.kind in ('assign', 'return') and he.value is not None and isinstance(he.value, ast.expr):
                         ne.value = substitute(he.value, mapping)
                     if he.kind == 'cond':
-                        ne.text = he.text
+                        t, flip = _subst_text(he.text, mapping, as_test=True)
+                        if t != he.text:
+                            try:
+                                ne.node = ast.parse(t, mode='eval').body
+                            except SyntaxError:
+                                pass
+                        ne.text = t
+                        if flip:
+                            ne.truth = not he.truth
+                    if he.kind == 'emit' and he.ctor:
+                        ne.ctor = _subst_text(he.ctor, mapping)[0]
+                    if he.kind == 'splice' and he.text in mapping:
+                        arg = mapping[he.text]
+                        if isinstance(arg, ast.Name):
+                            ne.text = arg.id
+                        elif isinstance(arg, ast.Call):
+                            # a generator call passed as instruction sequence: it is what gets spliced in
+                            ne.kind = 'sub'
+                            ne.func = src(arg.func)
+                            ne.recv = None
+                            ne.args = list(arg.args)
+                            ne.kwargs = {k.arg: k.value for k in arg.keywords if k.arg}
+                            ne.node = arg
                     ne.origin = e.origin + (key,) + he.origin
                     ne.line = e.line
                     if he.kind == 'return':
@@ -683,6 +866,29 @@ def inline(path_events, helpers, depth=3):
             for r in results:
                 r.append(e)
     return results
+
+
+def expand(events, idx, node, depth=3, keep=()):
+    """`node` (an expression, or its text) with local names replaced by the side-effect-free expressions most recently
+    assigned to them before events[idx] on this path (names in `keep`, parameters and anything else stay).  Returns text."""
+    from .normalise import is_pure
+    if isinstance(node, str):
+        try:
+            node = ast.parse(node, mode='eval').body
+        except SyntaxError:
+            return node
+    for _ in range(depth):
+        mapping = {}
+        for n in ast.walk(node):
+            if isinstance(n, ast.Name) and n.id not in keep and n.id not in mapping:
+                v = reaching_value(events, idx, n.id)
+                if isinstance(v, ast.expr) and not isinstance(v, (ast.YieldFrom, ast.Yield, ast.Await)) and is_pure(v) \
+                        and not any(isinstance(x, ast.Name) and x.id == n.id for x in ast.walk(v)):
+                    mapping[n.id] = v
+        if not mapping:
+            break
+        node = substitute(node, mapping)
+    return src(node)
 
 
 def reaching_value(events, idx, name):
